@@ -1,11 +1,19 @@
 package main
 
 import (
+	"bytes"
 	"fmt"
 	"go/ast"
+	"go/printer"
 	"go/token"
 	"sort"
 )
+
+func c02Src(e *ext, n ast.Node) string {
+	var b bytes.Buffer
+	_ = printer.Fprint(&b, e.fset, n)
+	return b.String()
+}
 
 // C02: every method of *RuntimeQuotaCalculator that changes the inputs of the redistribution
 // (a quotaTree insert/update*/erase, or an assignment to qtw.totalResource) also increments
@@ -117,6 +125,251 @@ func init() {
 			}
 			fmt.Fprintf(&e.out, "%s", leanStr(s))
 		}
-		fmt.Fprintf(&e.out, "]\n")
+		fmt.Fprintf(&e.out, "]\n\n")
+
+		// ---- loop domains: every `for … range X` of a RuntimeQuotaCalculator method whose body touches a
+		// per-dimension tree (mutator call or redistribution): X, whether only the key is bound, and whether the
+		// per-dimension value is read with `<list>.Name(<key>, …)` (a missing key reads 0) ----
+		treeCalls := map[string]bool{"redistribution": true}
+		for k := range mutCalls {
+			treeCalls[k] = true
+		}
+		type loopRow struct {
+			method, domain  string
+			keyOnly, byName bool
+		}
+		var loops []loopRow
+		for _, f := range e.dir(dir) {
+			for _, d := range f.Decls {
+				fd, ok := d.(*ast.FuncDecl)
+				if !ok || fd.Recv == nil || len(fd.Recv.List) == 0 || fd.Body == nil {
+					continue
+				}
+				t := fd.Recv.List[0].Type
+				if st, ok := t.(*ast.StarExpr); ok {
+					t = st.X
+				}
+				if id, ok := t.(*ast.Ident); !ok || id.Name != "RuntimeQuotaCalculator" {
+					continue
+				}
+				recvName := ""
+				if len(fd.Recv.List[0].Names) > 0 {
+					recvName = fd.Recv.List[0].Names[0].Name
+				}
+				ast.Inspect(fd.Body, func(n ast.Node) bool {
+					rs, ok := n.(*ast.RangeStmt)
+					if !ok {
+						return true
+					}
+					touches, byName := false, false
+					keyName := ""
+					if id, ok := rs.Key.(*ast.Ident); ok {
+						keyName = id.Name
+					}
+					needsValue := false
+					ast.Inspect(rs.Body, func(m ast.Node) bool {
+						ce, ok := m.(*ast.CallExpr)
+						if !ok {
+							return true
+						}
+						se, ok := ce.Fun.(*ast.SelectorExpr)
+						if !ok {
+							return true
+						}
+						if treeCalls[se.Sel.Name] {
+							touches = true
+						}
+						if se.Sel.Name == "updateMin" || se.Sel.Name == "updateSharedWeight" || se.Sel.Name == "updateRequest" || se.Sel.Name == "updateGuaranteed" {
+							needsValue = true
+						}
+						if se.Sel.Name == "Name" && len(ce.Args) >= 1 {
+							if id, ok := ce.Args[0].(*ast.Ident); ok && id.Name == keyName && keyName != "" {
+								byName = true
+							}
+						}
+						return true
+					})
+					if touches {
+						dom := c02Src(e, rs.X) // "recv.<field>" when it is a field of the receiver, whatever the receiver is called
+						if se, ok := rs.X.(*ast.SelectorExpr); ok {
+							if id, ok := se.X.(*ast.Ident); ok && id.Name == recvName {
+								dom = "recv." + se.Sel.Name
+							}
+						}
+						loops = append(loops, loopRow{fd.Name.Name, dom, rs.Value == nil, byName || !needsValue})
+					}
+					return true
+				})
+			}
+		}
+		sort.Slice(loops, func(i, j int) bool {
+			if loops[i].method != loops[j].method {
+				return loops[i].method < loops[j].method
+			}
+			return loops[i].domain < loops[j].domain
+		})
+		if len(loops) == 0 {
+			e.fail("no per-dimension loop found in RuntimeQuotaCalculator")
+		}
+		fmt.Fprintf(&e.out, "/-- (method, range expression, binds only the key, reads the per-dimension value with list.Name(key)) for every loop that touches a per-dimension tree -/\n")
+		fmt.Fprintf(&e.out, "def treeLoops : List (String × String × Bool × Bool) := [\n")
+		for i, r := range loops {
+			sep := ","
+			if i == len(loops)-1 {
+				sep = ""
+			}
+			fmt.Fprintf(&e.out, "  (%s, %s, %v, %v)%s\n", leanStr(r.method), leanStr(r.domain), r.keyOnly, r.byName, sep)
+		}
+		fmt.Fprintf(&e.out, "]\n\n")
+
+		// ---- extension.GetSharedWeight: statement shape ----
+		var sw []string
+		parsedVar := "" // the variable json.Unmarshal fills
+		calleeOf := func(x ast.Expr) string {
+			if ce, ok := x.(*ast.CallExpr); ok {
+				if se, ok := ce.Fun.(*ast.SelectorExpr); ok {
+					return se.Sel.Name
+				}
+				if id, ok := ce.Fun.(*ast.Ident); ok {
+					return id.Name
+				}
+			}
+			return ""
+		}
+		var walk func(list []ast.Stmt)
+		walk = func(list []ast.Stmt) {
+			for _, st := range list {
+				switch x := st.(type) {
+				case *ast.AssignStmt:
+					switch r := x.Rhs[0].(type) {
+					case *ast.IndexExpr:
+						k := ""
+						if id, ok := r.Index.(*ast.Ident); ok {
+							k = id.Name
+						}
+						sw = append(sw, "assign index "+k)
+					case *ast.CompositeLit:
+						sw = append(sw, "assign empty-list")
+					case *ast.CallExpr:
+						c := calleeOf(r)
+						if c == "Unmarshal" && len(r.Args) == 2 {
+							if ue, ok := r.Args[1].(*ast.UnaryExpr); ok && ue.Op == token.AND {
+								if id, ok := ue.X.(*ast.Ident); ok {
+									parsedVar = id.Name
+								}
+							}
+						}
+						sw = append(sw, "assign call "+c)
+					default:
+						sw = append(sw, fmt.Sprintf("assign other %T", r))
+					}
+				case *ast.IfStmt:
+					var calls []string
+					ops := ""
+					ast.Inspect(x.Cond, func(n ast.Node) bool {
+						switch y := n.(type) {
+						case *ast.CallExpr:
+							calls = append(calls, calleeOf(y))
+						case *ast.BinaryExpr:
+							ops += y.Op.String()
+						case *ast.UnaryExpr:
+							ops += y.Op.String()
+						}
+						return true
+					})
+					sw = append(sw, "if "+ops+" "+fmt.Sprint(calls))
+					walk(x.Body.List)
+					if x.Else != nil {
+						sw = append(sw, "else")
+					}
+					sw = append(sw, "end")
+				case *ast.ReturnStmt:
+					r := "return"
+					for _, v := range x.Results {
+						if id, ok := v.(*ast.Ident); ok {
+							if id.Name == parsedVar && parsedVar != "" {
+								r += " parsed"
+							} else {
+								r += " ident"
+							}
+						} else if c := calleeOf(v); c != "" {
+							r += " call " + c
+							if ce, ok := v.(*ast.CallExpr); ok {
+								if se, ok := ce.Fun.(*ast.SelectorExpr); ok {
+									if inner, ok := se.X.(*ast.SelectorExpr); ok {
+										r += " of " + inner.Sel.Name
+									}
+								}
+							}
+						} else {
+							r += fmt.Sprintf(" other %T", v)
+						}
+					}
+					sw = append(sw, r)
+				default:
+					sw = append(sw, fmt.Sprintf("other %T", st))
+				}
+			}
+		}
+		if fd := e.funcDecl("apis/extension", "", "GetSharedWeight"); fd != nil && fd.Body != nil {
+			walk(fd.Body.List)
+		} else {
+			e.fail("extension.GetSharedWeight not found")
+		}
+		fmt.Fprintf(&e.out, "def sharedWeightShape : List String := [\n")
+		for i, x := range sw {
+			sep := ","
+			if i == len(sw)-1 {
+				sep = ""
+			}
+			fmt.Fprintf(&e.out, "  %s%s\n", leanStr(x), sep)
+		}
+		fmt.Fprintf(&e.out, "]\n\n")
+
+		// ---- doUpdateOneGroupMinQuotaNoLock: calls on the parent's calculator, in order ----
+		var minCalls []string
+		if fd := e.funcDecl(dir, "GroupQuotaManager", "doUpdateOneGroupMinQuotaNoLock"); fd != nil && fd.Body != nil {
+			ast.Inspect(fd.Body, func(n ast.Node) bool {
+				if ce, ok := n.(*ast.CallExpr); ok {
+					if se, ok := ce.Fun.(*ast.SelectorExpr); ok {
+						switch se.Sel.Name {
+						case "updateOneGroupMinQuota", "needUpdateOneGroupRequest", "updateOneGroupRequest", "needUpdateOneGroupGuaranteed", "updateOneGroupGuaranteed":
+							minCalls = append(minCalls, se.Sel.Name)
+						}
+					}
+				}
+				return true
+			})
+		} else {
+			e.fail("doUpdateOneGroupMinQuotaNoLock not found")
+		}
+		fmt.Fprintf(&e.out, "def minUpdateCalculatorCalls : List String := [")
+		for i, x := range minCalls {
+			if i > 0 {
+				fmt.Fprintf(&e.out, ", ")
+			}
+			fmt.Fprintf(&e.out, "%s", leanStr(x))
+		}
+		fmt.Fprintf(&e.out, "]\n\n")
+
+		// ---- the lend flag and NewQuotaInfoFromQuota ----
+		rule := ""
+		if fd := e.funcDecl("apis/extension", "", "IsAllowLentResource"); fd != nil && fd.Body != nil && len(fd.Body.List) == 1 {
+			if rs, ok := fd.Body.List[0].(*ast.ReturnStmt); ok && len(rs.Results) == 1 {
+				if be, ok := rs.Results[0].(*ast.BinaryExpr); ok {
+					if ix, ok := be.X.(*ast.IndexExpr); ok {
+						if id, ok := ix.Index.(*ast.Ident); ok {
+							if lit, ok := be.Y.(*ast.BasicLit); ok {
+								rule = "label " + id.Name + " " + be.Op.String() + " " + lit.Value
+							}
+						}
+					}
+				}
+			}
+		}
+		if rule == "" {
+			e.fail("IsAllowLentResource: unexpected shape")
+		}
+		fmt.Fprintf(&e.out, "def allowLentRule : String := %s\n", leanStr(rule))
 	}
 }
